@@ -11,7 +11,7 @@ import (
 	"verifgen/hx"
 )
 
-var recordTops = []string{"Inner", "Prims", "Opts", "Dflt", "Coll", "WithU", "Incl", "Incl2", "Rec", "Big"}
+var recordTops = []string{"Inner", "Prims", "Opts", "Dflt", "Coll", "WithU", "Incl", "Incl2", "Rec", "Big", "IX", "IY"}
 
 // delete / null / permute / inject on a conforming document
 func mutateDoc(s *Schema, t RType, d *Doc, r *hx.Rand, allowNull bool) (*Doc, string) {
